@@ -42,6 +42,7 @@ EXPLANATION += (" R-C09-9: the frame the damage parameter writes its P_RAM colum
 EXPLANATION += (" R-C09-8: no root finder in the FKM-nonlinear modules is applied to the absolute value of its residual (kink at the root, no sign change); where compute_beta is the closed form -ppf(P_A) / isf(P_A), R-C09-7 records that as the negative standard-normal quantile.")
 EXPLANATION += (' R-C09-11: the closures returned by get_lifetime_functions of the damage calculators (N_max_bearable, failure_probability) write no object state that is not restored in a finally clause of the same closure; otherwise the calculator reports the lifetime of the last queried failure probability.')
 EXPLANATION += (' R-C09-12: in FKMLoadSequence.maximum_absolute_load the selection of the load column applies to the per-node and to the global maximum alike (it is not nested under the per-node switch).')
+EXPLANATION += (" R-C09-13 (shared state-family rules, sa/statefam.py): in the FKM-nonlinear curve, damage and load-distribution modules no store goes into an attribute object of a shallow copy (copy.copy / copy(deep=False)) - the original's per-point parameters would be overwritten -, no mutable class attribute is changed through an instance and no value derived from an argument is memoised under a partial key.")
 ASSUMPTIONS = ["P_Z, P_D, N positive; d_1, d_2, d_RAJ negative (checked by the curve validators)",
                "statistics.NormalDist().inv_cdf is the standard normal quantile"]
 
@@ -125,8 +126,24 @@ class CurveNF:
 
 def run(ctx):
     for r in (_curves, _pram, _constants, _beta, _half, _accumulation, _complement, _signed_residuals, _own_table, _knee_layout,
-              _query_functions_pure, _load_column):
+              _query_functions_pure, _load_column, _copies_and_state):
         ctx.attempt(r)
+
+
+FKM_MODS = ("pylife.strength.woehler_fkm_nonlinear", "pylife.strength.damage_parameter", "pylife.strength.fkm_load_distribution",
+            "pylife.strength.fkm_nonlinear.damage_calculator", "pylife.strength.fkm_nonlinear.damage_calculator_praj_miner")
+
+
+def _copies_and_state(ctx):
+    """R-C09-13 (state families, sa/statefam.py): in the FKM-nonlinear curve / damage / load-distribution modules no store goes
+    INTO an attribute object of a shallow copy (the per-point parameter Series of the original curve would be overwritten by the
+    'copy' reduced to its minimum), no mutable class attribute is changed through an instance, no partially keyed memo."""
+    from .. import statefam
+    prog = ctx.prog
+    classes = [ci for k, ci in sorted(prog.classes.items()) if ci.module.name in FKM_MODS]
+    funcs = [fi for k, fi in sorted(prog.functions.items()) if fi.module.name in FKM_MODS]
+    statefam.apply(ctx, "R-C09-13", "no write through a shallow copy / shared class-level state in the FKM-nonlinear curve and damage modules",
+                   classes=classes, functions=funcs, kinds=("S1", "S2", "S3"), floor=3)
 
 
 def _load_column(ctx):
